@@ -665,17 +665,17 @@ Qed.
 Lemma bar_nlterm : forall size b e bw W, nlterm [mkSeg (bar_text size b e bw W) None false; NLS].
 Proof. intros. right. exists [mkSeg (bar_text size b e bw W) None false]. reflexivity. Qed.
 
-Theorem pbar_sfits : forall total completed pw pulse t W, 0 <= W ->
+Theorem pbar_sfits : forall hc total completed pw pulse t W, 0 <= W ->
   (match pw with Some x => 0 <= x | None => True end) ->
-  sfits W (crender (pbar_child total completed pw pulse t) W).
+  sfits W (crender (pbar_child hc total completed pw pulse t) W).
 Proof.
-  intros total completed pw pulse t W HW Hpw. cbn [pbar_child crender].
-  set (s := pbar_text total completed pw pulse t false false false W).
+  intros hc total completed pw pulse t W HW Hpw. cbn [pbar_child crender].
+  set (s := pbar_text total completed pw pulse t false hc false W).
   assert (Hs : cell_len s <= W).
   { pose proof (bar_width_le pw W). unfold s. destruct pulse.
-    - pose proof (pbar_pulse_exact total completed pw t false false false W HW Hpw) as R.
+    - pose proof (pbar_pulse_exact total completed pw t false hc false W HW Hpw) as R.
       unfold bar_within_b in R. apply andb_true_iff in R as [R _]. lia.
-    - pose proof (pbar_within total completed pw t false false false W HW Hpw) as R.
+    - pose proof (pbar_within total completed pw t false hc false W HW Hpw) as R.
       unfold bar_within_b in R. apply andb_true_iff in R as [R _]. lia. }
   destruct s as [|x s]; [apply sfits_nil|]. apply sfits_single_seg. exact Hs.
 Qed.
